@@ -977,7 +977,7 @@ val zeros : nat -> bytes
 val padded_plaintext : z -> scoped -> bytes res
 
 val priv_encrypt :
-  priv_key -> scoped -> z -> z -> ((priv_key * bytes) * bytes) res
+  priv_key -> scoped -> z -> z -> priv_key * (bytes * bytes) res
 
 val priv_decrypt_bytes : priv_key -> bytes -> usm -> bytes res
 
@@ -997,7 +997,13 @@ val v3_new : bytes -> bytes -> z -> bytes -> z -> bytes -> z -> v3sock res
 val v3_set_keys :
   v3sock -> bytes -> z -> bytes -> z -> bytes -> z -> v3sock res
 
-val v3_push_pdu : v3sock -> pdu -> z -> (v3sock * bytes) res
+val with_priv_msgid : v3sock -> priv_key -> z -> v3sock
+
+val v3_message : v3sock -> pdu -> z -> bytes -> msgdata -> v3msg
+
+val v3_finish : v3sock -> v3msg -> bytes res
+
+val v3_push_pdu : v3sock -> pdu -> z -> v3sock * bytes res
 
 val with_request_id : v3sock -> z -> v3sock
 
